@@ -134,6 +134,28 @@ CLAIMED["C06"] = (
     "DESIGN.md section 4 C06",
 )
 
+SHARED = {
+    "C01": "constant conditions, narrow-before-reduce",
+    "C02": "constant conditions",
+    "C03": "constant conditions, argument roles",
+    "C04": "constant conditions, co-indexed lengths / tiling, range offset, chunk remainder",
+    "C05": "constant conditions, argument roles",
+    "C06": "constant conditions, zero-known operand",
+    "C07": "constant conditions, zero-known operand, stale capacity",
+    "C08": "constant conditions, narrow-before-reduce",
+    "C09": "constant conditions, element alias, narrow-before-reduce",
+    "C10": "constant conditions, co-indexed lengths / tiling, range offset, chunk remainder, shared field storage",
+    "C11": "constant conditions, co-indexed lengths / tiling, range offset",
+    "C12": "constant conditions",
+    "C13": "constant conditions, narrow-before-reduce",
+    "C14": "co-indexed lengths, shared field storage, narrow-before-reduce",
+    "C16": "constant conditions, co-indexed lengths, range offset",
+    "C17": "constant conditions, co-indexed lengths, range offset, chunk remainder",
+    "C18": "stale capacity, cache publication",
+    "C19": "element alias",
+    "C20": "constant conditions, co-indexed lengths, stale capacity",
+}
+
 NOT_YET = "check not built yet in this revision of /verif (see DESIGN.md section 4 for the planned structural clauses); the value-level core is not decidable by static analysis"
 
 def main():
@@ -142,6 +164,8 @@ def main():
         if pid not in CLAIMED:
             continue
         tech, text, note, ref = CLAIMED[pid]
+        if pid in SHARED:
+            tech += "; shared necessary-condition lints over the property's packages: " + SHARED[pid] + " (DESIGN.md 3.6)"
         checks.append({
             "property_id": pid,
             "quick_cmd": "./check.sh %s quick" % pid,
@@ -177,7 +201,7 @@ def main():
         }],
         "checks": checks,
         "not_applicable": na,
-        "notes": "Technique family: static analysis only; no repository code is executed by any check. Known findings: /verif/known_findings.json. Seeded mutants: /verif/seeded/. Rules were also exercised against 120 behaviour-preserving restructurings (DESIGN.md 7.3).",
+        "notes": "Technique family: static analysis only; no repository code is executed by any check. Known findings: /verif/known_findings.json. Seeded mutants: /verif/seeded/. Rules were also exercised against 220 behaviour-preserving edits (DESIGN.md 7.3).",
     }
     json.dump(m, open("/verif/MANIFEST.json", "w"), indent=1)
     # validate
